@@ -56,7 +56,7 @@ NS_DICTS = [
 @st.composite
 def cases(draw):
     g = draw(gg.general(inst_props=(RDF_TYPE, RDF_TYPE, RDF_TYPE, "http://ex.org/isA", gg.INST_PROPS[2]),
-                        bnode_classes=True, class_typing=True))
+                        bnode_classes=True, class_typing=True, quirks=draw(gg.quirk_set())))
     cfg = draw(gg.switches())
     opt = st.integers(0, 3)
     if draw(opt) == 0:
@@ -93,6 +93,8 @@ def cases(draw):
         target = {"mode": "sm", "with_all": draw(st.integers(0, 3)) == 0, "json": draw(st.booleans()),
                   "items": [{"sel": draw(c10.selector(g)), "label": draw(st.sampled_from(["<http://sh.org/S%d>" % i, "ex:S%d" % i, "<S%d>" % i])),
                              "styles": draw(st.lists(st.integers(0, 1), min_size=4, max_size=4))} for i in range(n)]}
+    if target["mode"] == "sm" and not target["json"] and "@" in repr([it["sel"] for it in target["items"]]):
+        target["json"] = True       # the fixed syntax allows one '@' per line (documented); mailto: IRIs go through the JSON syntax
     thr = draw(gg.thresholds())
     fmt = draw(st.sampled_from(["ShEx", "ShEx", "Shacl"]))
     call = draw(st.sampled_from(["shex_graph"] * 5 + ["profile_graph"]))
